@@ -168,6 +168,87 @@ MUTANTS = [
 ]
 
 
+# Patterns brought up to date with the repaired tree (third session): the source under these mutants had changed through the
+# later repairs (trackers keyed by event node, transposition(), the repeat filter, the watcher loop, the LED watchdog ...).
+_UPDATED = {'c01-drop-unmapped-release': ['\t\t\t_, ok := d.noteTracker[keyOf(ie)]\n\t\t\tif ok {', '\t\t\t_, ok := d.noteTracker[keyOf(ie)]\n\t\t\tif ok && false {'],
+ 'c01-skip-key-cleanup-managed': ['\tfor key := range d.noteTracker {\n\t\td.noteOff(key, &input.InputEvent{',
+                                  '\tfor key := range d.noteTracker {\n'
+                                  '\t\tif d.config.CollisionMode == config.CollisionRetrigger {\n'
+                                  '\t\t\tbreak\n'
+                                  '\t\t}\n'
+                                  '\t\td.noteOff(key, &input.InputEvent{'],
+ 'c02-tracker-stores-base-channel': ['d.noteTracker[keyOf(ev)] = [2]byte{note, channel}\n\td.activeNotesCounter[channel][note]++',
+                                     'd.noteTracker[keyOf(ev)] = [2]byte{note, d.channel}\n\td.activeNotesCounter[channel][note]++'],
+ 'c04-int8-octave': ['\twhole, rest := d.semitone/12, d.semitone%12\n\toctaves := d.octave + whole',
+                     '\twhole, rest := d.semitone/12, d.semitone%12\n\toctaves := int(int8(d.octave)) + whole'],
+ 'c06-dedupe-on-raw-sign': ['\tif seen && lastValue == value {', '\tif seen && (lastValue == value || (lastValue > 0.9 && value > 0.9)) {'],
+ 'c07-learning-threshold': ['if d.ccLearning && !(value < -0.5 || value > 0.5) &&', 'if d.ccLearning && !(value < -0.5 || value > 0.3) &&'],
+ 'c07-never-rearm': ['\t\t\t\td.ccZeroed[analog.CCNeg] = false\n'
+                     '\t\t\t} else {\n'
+                     '\t\t\t\td.outputEvents <- midi.ControlChangeEvent(channel, analog.CC, byte(int(float64(127)*adjustedValue)))\n'
+                     '\t\t\t\tif !oneController && !d.ccZeroed[analog.CCNeg] {\n'
+                     '\t\t\t\t\td.outputEvents <- midi.ControlChangeEvent(channelNeg, analog.CCNeg, 0)\n'
+                     '\t\t\t\t\td.ccZeroed[analog.CCNeg] = true\n'
+                     '\t\t\t\t}\n'
+                     '\t\t\t\td.ccZeroed[analog.CC] = false\n'
+                     '\t\t\t}\n'
+                     '\t\tcase canBeNegative && !analog.Bidirectional:',
+                     '\t\t\t} else {\n'
+                     '\t\t\t\td.outputEvents <- midi.ControlChangeEvent(channel, analog.CC, byte(int(float64(127)*adjustedValue)))\n'
+                     '\t\t\t\tif !oneController && !d.ccZeroed[analog.CCNeg] {\n'
+                     '\t\t\t\t\td.outputEvents <- midi.ControlChangeEvent(channelNeg, analog.CCNeg, 0)\n'
+                     '\t\t\t\t\td.ccZeroed[analog.CCNeg] = true\n'
+                     '\t\t\t\t}\n'
+                     '\t\t\t\td.ccZeroed[analog.CC] = false\n'
+                     '\t\t\t}\n'
+                     '\t\tcase canBeNegative && !analog.Bidirectional:'],
+ 'c07-shared-zero-flag': ['\t\t\t\td.outputEvents <- midi.ControlChangeEvent(channel, analog.CC, byte(int(float64(127)*adjustedValue)))\n'
+                          '\t\t\t\tif !oneController && !d.ccZeroed[analog.CCNeg] {\n'
+                          '\t\t\t\t\td.outputEvents <- midi.ControlChangeEvent(channelNeg, analog.CCNeg, 0)\n'
+                          '\t\t\t\t\td.ccZeroed[analog.CCNeg] = true\n'
+                          '\t\t\t\t}\n'
+                          '\t\t\t\td.ccZeroed[analog.CC] = false\n'
+                          '\t\t\t}\n'
+                          '\t\tcase canBeNegative && !analog.Bidirectional:',
+                          '\t\t\t\td.outputEvents <- midi.ControlChangeEvent(channel, analog.CC, byte(int(float64(127)*adjustedValue)))\n'
+                          '\t\t\t\tif !oneController && !d.ccZeroed[analog.CC] {\n'
+                          '\t\t\t\t\td.outputEvents <- midi.ControlChangeEvent(channelNeg, analog.CCNeg, 0)\n'
+                          '\t\t\t\t\td.ccZeroed[analog.CC] = true\n'
+                          '\t\t\t\t}\n'
+                          '\t\t\t\td.ccZeroed[analog.CC] = false\n'
+                          '\t\t\t}\n'
+                          '\t\tcase canBeNegative && !analog.Bidirectional:'],
+ 'c08-jump-keeps-other-direction': ['\t\tif value > -0.49 {\n\t\t\td.AnalogNoteOff(identifierNeg, ie)\n\t\t}',
+                                    '\t\tif value > -0.49 && value < 0.49 {\n\t\t\td.AnalogNoteOff(identifierNeg, ie)\n\t\t}'],
+ 'c08-thresholds-swapped': ['\t\tif value < 0.49 {\n\t\t\td.AnalogNoteOff(identifier, ie)\n\t\t}\n\t\tif value > -0.49 {',
+                            '\t\tif value < 0.3 {\n\t\t\td.AnalogNoteOff(identifier, ie)\n\t\t}\n\t\tif value > -0.3 {'],
+ 'c16-cleanup-unlocked': ['\td.eventProcessMutex.Lock()\n\tfor key := range d.noteTracker {', '\tfor key := range d.noteTracker {'],
+ 'c16-led-reads-unlocked': ['\t\td.eventProcessMutex.Lock()\n\t\toffset := d.transposition()',
+                            '\t\toffset := d.transposition()\n\t\td.eventProcessMutex.Lock()'],
+ 'c16-no-watchdog-for-mute-server': ['if started != 0 && time.Since(time.Unix(0, started)) > time.Millisecond*500 {',
+                                     'if started != 0 && time.Since(time.Unix(0, started)) > time.Hour {'],
+ 'c17-active-ignores-offset': ['\t\tfor _, noteAndChannel := range d.noteTracker {\n\t\t\tbase := int(noteAndChannel[0]) - offset\n',
+                               '\t\tfor _, noteAndChannel := range d.noteTracker {\n\t\t\tbase := int(noteAndChannel[0])\n'],
+ 'c17-no-red-on-disconnect': ['\tserverCall(func() { c.UpdateLEDs(index, ledArray) })\n\tlog.Info(fmt.Sprintf("[OpenRGB] device thread exited")',
+                              '\tlog.Info(fmt.Sprintf("[OpenRGB] device thread exited")'],
+ 'c17-semitone-not-in-offset': ['\t\toffset := d.transposition()', '\t\toffset := d.transposition() - d.semitone'],
+ 'c18-changed-factory-file-rewritten-in-place': ['\t\t// with cp -l, a symbolic link), which must stay as it is\n\t\tif err := os.Remove(path); err != nil {',
+                                                 '\t\t// with cp -l, a symbolic link), which must stay as it is\n\t\tif err := error(nil); err != nil {'],
+ 'c19-every-second-write': [['\t\t// the watcher reports its errors on a channel of its own and stops delivering events until somebody takes them\n\t\tfor {',
+                             '\t\t\t\tif event.Op != fsnotify.Write {\n\t\t\t\t\tcontinue\n\t\t\t\t}\n'],
+                            ['\t\tseenWrites := 0\n'
+                             '\t\t// the watcher reports its errors on a channel of its own and stops delivering events until somebody takes them\n'
+                             '\t\tfor {',
+                             '\t\t\t\tif event.Op != fsnotify.Write {\n'
+                             '\t\t\t\t\tcontinue\n'
+                             '\t\t\t\t}\n'
+                             '\t\t\t\tseenWrites++\n'
+                             '\t\t\t\tif seenWrites > 12 && seenWrites%2 == 0 {\n'
+                             '\t\t\t\t\tcontinue\n'
+                             '\t\t\t\t}\n']]}
+MUTANTS = [(n, p, _UPDATED[n][0], _UPDATED[n][1], props) if n in _UPDATED else (n, p, o, nw, props) for (n, p, o, nw, props) in MUTANTS]
+
+
 def run(cmd, **kw):
     return subprocess.run(cmd, stdout=subprocess.PIPE, stderr=subprocess.STDOUT, text=True, **kw)
 
